@@ -292,7 +292,7 @@ def nx_all_simple_paths(g, source, target, cutoff=None):
     record_raise(bnot(g.node[source]), "NodeNotFound", f"source node {source} not in graph")
     record_raise(bnot(g.node[target]), "NodeNotFound", f"target node {target} not in graph")
     if source == target:
-        return SList([])
+        return SList([(g.node[source], [source])])  # networkx >= 3 yields the one-node path
     others = [v for v in g.U if v not in (source, target)]
     out = []
     for k in range(len(others) + 1):
@@ -327,3 +327,13 @@ def nx_node_boundary(g, nbunch1, nbunch2=None):
             cond = band(cond, SSet.of(nbunch2).mem(v))
         out[v] = cond
     return SSet(out)
+
+
+def nx_transitive_closure_dag(g, topo_order=None):
+    out = SymDiGraph(g.U, dict(g.node), {})
+    R = g.reach()
+    for u in g.U:
+        for v in g.U:
+            if u != v:
+                out.edge[(u, v)] = R[u][v]
+    return out
